@@ -75,6 +75,9 @@ pub enum RawEnum { r#type, r#struct { r#ref: u8, r#loop: Nat, b: Int }, r#move(u
 
 candid::define_function!(pub FnRef : (Nat, Option<Pair>) -> (String) query);
 candid::define_service!(pub SvRef : { "get" : candid::func!((Nat) -> (Int) query); "set" : candid::func!((Vec<u8>) -> ()) });
+// method names whose order by name differs from their order by hash, by length and by case (methods are sorted by NAME on the wire)
+candid::define_service!(pub SvMany : { "b" : candid::func!(() -> ()); "aa" : candid::func!((Nat) -> ()); "Zeta" : candid::func!(() -> (Int) query);
+    "long_method_name" : candid::func!((String) -> (String)); "\u{e9}t\u{e9}" : candid::func!(() -> () oneway); "a" : candid::func!((SvRef) -> ()) });
 
 type BV3 = BoundedVec<3, { candid::types::bounded_vec::UNBOUNDED }, { candid::types::bounded_vec::UNBOUNDED }, u64>;
 type BVT = BoundedVec<{ candid::types::bounded_vec::UNBOUNDED }, 100, { candid::types::bounded_vec::UNBOUNDED }, Vec<u8>>;
@@ -304,6 +307,7 @@ corpus! {
     "Box<Tree>" => Box<Tree>, "Opt<Box<Mutual2>>" => Option<Box<Mutual2>>, "Vec<Rose>" => Vec<Rose>, "(Vec<Nat>,Int)" => (Vec<Nat>, Int),
     "(BTreeSet<Nat>,Int,Vec<Int>,Nat)" => (BTreeSet<Nat>, Int, Vec<Int>, Nat), "(Vec<u8>,u8,Vec<u64>,i64)" => (Vec<u8>, u8, Vec<u64>, i64),
     "BV3" => BV3, "BVT" => BVT, "BVE" => BVE, "BVU" => BVU, "FnRef" => FnRef, "SvRef" => SvRef, "Vec<FnRef>" => Vec<FnRef>,
+    "SvMany" => SvMany, "Opt<SvMany>" => Option<SvMany>,
 }
 
 /// corpus types with host limits beyond the Candid type (128-bit integers, bounded vectors, fixed-size arrays)
